@@ -128,6 +128,10 @@ pub static NOEXEC_CALLS: Mutex<Vec<(u64, u64)>> = Mutex::new(Vec::new());
 pub fn noexec_take() -> Vec<(u64, u64)> {
     NOEXEC_CALLS.lock().map(|mut v| std::mem::take(&mut *v)).unwrap_or_default()
 }
+/// n > 0: the n-th munmap the library makes from now on fails (EINVAL, nothing is unmapped)
+pub static MUNMAP_FAIL_IN: AtomicI64 = AtomicI64::new(0);
+/// (address, length) of the munmap calls that were made to fail (the harness releases them later)
+pub static FAILED_UNMAPS: Mutex<Vec<(u64, u64)>> = Mutex::new(Vec::new());
 /// number of mprotect calls that were made to fail since the last plan_reset
 pub static MPROTECT_FAILS: AtomicU64 = AtomicU64::new(0);
 
@@ -148,6 +152,7 @@ pub fn plan_reset() {
     FREE_PAGES.lock().unwrap().clear();
     MPROTECT_FAIL_AT.store(0, SeqCst);
     MPROTECT_FAIL_PAGE.store(0, SeqCst);
+    MUNMAP_FAIL_IN.store(0, SeqCst);
     DENY_WX.store(0, SeqCst);
     let _ = noexec_take();
     MMAP_RUN.store(0, SeqCst);
@@ -340,6 +345,18 @@ pub unsafe extern "C" fn munmap(addr: *mut libc::c_void, len: libc::size_t) -> l
         return sys_munmap(addr as usize, len);
     }
     maybe_pause(Kind::Munmap);
+    let n = MUNMAP_FAIL_IN.load(SeqCst);
+    if n > 0 {
+        MUNMAP_FAIL_IN.store(n - 1, SeqCst);
+        if n == 1 {
+            if let Ok(mut v) = FAILED_UNMAPS.try_lock() {
+                v.push((addr as u64, len as u64));
+            }
+            set_errno(libc::EINVAL);
+            push(Kind::Munmap, addr as u64, len as u64, 0, -1i64 as u64, vec![]);
+            return -1;
+        }
+    }
     let r = sys_munmap(addr as usize, len);
     push(Kind::Munmap, addr as u64, len as u64, 0, r as i64 as u64, vec![]);
     r
